@@ -1,0 +1,567 @@
+//go:build verif
+
+// Verification hooks for the escape analysis (compiled only with -tags verif). Add-only: nothing
+// in this file is referenced by the rest of the package.
+//
+//   - VerifUniverse: build real EscapeGraphs from a serialised description and serialise them back,
+//     so that an external driver can run the real Merge/AddEdge/MergeNodeStatus/WeakAssign/
+//     StoreField/LoadField/LessEqual/Matches on chosen graphs.
+//   - VerifCapture*: graphs that arise in a real run (initial, block-end and final graphs).
+//   - VerifSetMonoCheck / VerifMonoViolations: switch on the package's own per-instruction
+//     monotonicity self-check and collect (instead of log) the violations.
+//   - VerifEscapeAnalysisPermuted: the whole-program driver loop with the block and function
+//     worklists taken in a seeded random order; VerifSummaryFingerprints: node-identity independent
+//     canonical form of every final summary.
+package escape
+
+import (
+	"crypto/sha1"
+	"fmt"
+	"math/rand"
+	"sort"
+	"strings"
+
+	"github.com/awslabs/ar-go-tools/analysis/config"
+	"github.com/awslabs/ar-go-tools/analysis/dataflow"
+	"github.com/awslabs/ar-go-tools/internal/graphutil"
+	"golang.org/x/tools/go/callgraph"
+	"golang.org/x/tools/go/ssa"
+)
+
+// VerifUniverse is an indexed set of nodes sharing one NodeGroup.
+type VerifUniverse struct {
+	Nodes []*Node
+	index map[*Node]int
+	Group *NodeGroup
+}
+
+// VerifGraphDesc is the serialised form of a graph over a universe.
+type VerifGraphDesc struct {
+	Status [][2]int // (node, status)
+	Out    []int    // nodes that have an entry in the edge map
+	Edges  [][3]int // (src, dst, flags)
+}
+
+// VerifNewUniverse creates len(kinds) fresh nodes of the given kinds in a fresh node group.
+func VerifNewUniverse(kinds []int) *VerifUniverse {
+	u := &VerifUniverse{index: map[*Node]int{}, Group: NewNodeGroup(newGlobalNodeGroup())}
+	for i, k := range kinds {
+		n := &Node{nodeKind(k), u.Group.globalNodes.getNewID(), fmt.Sprintf("n%d", i)}
+		u.Nodes = append(u.Nodes, n)
+		u.index[n] = i
+	}
+	return u
+}
+
+// VerifUniverseOf indexes all nodes that occur in the given graphs (sorted by node number).
+func VerifUniverseOf(group *NodeGroup, graphs ...*EscapeGraph) *VerifUniverse {
+	u := &VerifUniverse{index: map[*Node]int{}, Group: group}
+	seen := map[*Node]bool{}
+	add := func(n *Node) {
+		if n != nil && !seen[n] {
+			seen[n] = true
+			u.Nodes = append(u.Nodes, n)
+		}
+	}
+	for _, g := range graphs {
+		for n := range g.status {
+			add(n)
+		}
+		for n, out := range g.edges {
+			add(n)
+			for m := range out {
+				add(m)
+			}
+		}
+	}
+	sort.Slice(u.Nodes, func(i, j int) bool { return u.Nodes[i].number < u.Nodes[j].number })
+	for i, n := range u.Nodes {
+		u.index[n] = i
+	}
+	return u
+}
+
+// Kinds returns the kind of every node of the universe.
+func (u *VerifUniverse) Kinds() []int {
+	r := make([]int, len(u.Nodes))
+	for i, n := range u.Nodes {
+		r[i] = int(n.kind)
+	}
+	return r
+}
+
+// AddFieldSubnode registers (without touching any graph) node `child` as the field subnode
+// `field` of `parent`, exactly as FieldSubnode would with a nil type hint.
+func (u *VerifUniverse) AddFieldSubnode(parent int, field string, child int) {
+	gn := u.Group.globalNodes
+	reason := fieldSubnodeReason{field}
+	if gn.subnodes[u.Nodes[parent]] == nil {
+		gn.subnodes[u.Nodes[parent]] = map[any]nodeWithData{}
+	}
+	gn.subnodes[u.Nodes[parent]][reason] = nodeWithData{u.Nodes[child], nil}
+	gn.parent[u.Nodes[child]] = nodeWithData{u.Nodes[parent], reason}
+}
+
+// Subnodes lists the registered subnode relations (parent, reason, child) among universe nodes;
+// field reasons are "f:<name>", implementation reasons "i:<type>".
+func (u *VerifUniverse) Subnodes() [][3]string {
+	var r [][3]string
+	for i, n := range u.Nodes {
+		if p, ok := u.Group.globalNodes.parent[n]; ok {
+			if pi, ok := u.index[p.node]; ok {
+				r = append(r, [3]string{fmt.Sprint(pi), verifReason(p.data), fmt.Sprint(i)})
+			}
+		}
+	}
+	return r
+}
+
+func verifReason(r any) string {
+	switch rr := r.(type) {
+	case fieldSubnodeReason:
+		return "f:" + rr.field
+	case implementationSubnodeReason:
+		return "i:" + rr.tp
+	}
+	return fmt.Sprintf("?:%v", r)
+}
+
+// Name gives a stable name to a node: its index if it is in the universe, otherwise the name of
+// the node it was derived from plus the derivation (field subnode, implementation subnode, load child).
+func (u *VerifUniverse) Name(n *Node) string {
+	if n == nil {
+		return "nil"
+	}
+	if i, ok := u.index[n]; ok {
+		return fmt.Sprint(i)
+	}
+	if p, ok := u.Group.globalNodes.parent[n]; ok {
+		return u.Name(p.node) + "/" + verifReason(p.data)
+	}
+	if b, ok := u.Group.loadBase[n]; ok {
+		return u.Name(b) + "/load"
+	}
+	return fmt.Sprintf("?%d<%s>", n.number, n.debugInfo)
+}
+
+// Build creates a real graph by writing the maps directly (no closure is computed).
+func (u *VerifUniverse) Build(d VerifGraphDesc) *EscapeGraph {
+	g := NewEmptyEscapeGraph(u.Group)
+	for _, s := range d.Status {
+		g.status[u.Nodes[s[0]]] = EscapeStatus(s[1])
+	}
+	for _, o := range d.Out {
+		g.edges[u.Nodes[o]] = map[*Node]edgeFlags{}
+	}
+	for _, e := range d.Edges {
+		m := g.edges[u.Nodes[e[0]]]
+		if m == nil {
+			m = map[*Node]edgeFlags{}
+			g.edges[u.Nodes[e[0]]] = m
+		}
+		m[u.Nodes[e[1]]] = edgeFlags(e[2])
+	}
+	return g
+}
+
+// Dump serialises a graph canonically: "st=<name>:<status>,... out=<name>,... e=<src>><dst>:<flags>,..."
+// with every list sorted.
+func (u *VerifUniverse) Dump(g *EscapeGraph) string {
+	var st, out, es []string
+	for n, s := range g.status {
+		st = append(st, fmt.Sprintf("%s:%d", u.Name(n), s))
+	}
+	for n, o := range g.edges {
+		out = append(out, u.Name(n))
+		for m, f := range o {
+			es = append(es, fmt.Sprintf("%s>%s:%d", u.Name(n), u.Name(m), f))
+		}
+	}
+	sort.Strings(st)
+	sort.Strings(out)
+	sort.Strings(es)
+	return "st=" + strings.Join(st, ",") + " out=" + strings.Join(out, ",") + " e=" + strings.Join(es, ",")
+}
+
+// Desc returns the description of a graph all of whose nodes are in the universe.
+func (u *VerifUniverse) Desc(g *EscapeGraph) (d VerifGraphDesc, ok bool) {
+	ok = true
+	ix := func(n *Node) int {
+		i, present := u.index[n]
+		if !present {
+			ok = false
+		}
+		return i
+	}
+	for n, s := range g.status {
+		d.Status = append(d.Status, [2]int{ix(n), int(s)})
+	}
+	for n, o := range g.edges {
+		d.Out = append(d.Out, ix(n))
+		for m, f := range o {
+			d.Edges = append(d.Edges, [3]int{ix(n), ix(m), int(f)})
+		}
+	}
+	sort.Slice(d.Status, func(i, j int) bool { return d.Status[i][0] < d.Status[j][0] })
+	sort.Ints(d.Out)
+	sort.Slice(d.Edges, func(i, j int) bool {
+		if d.Edges[i][0] != d.Edges[j][0] {
+			return d.Edges[i][0] < d.Edges[j][0]
+		}
+		return d.Edges[i][1] < d.Edges[j][1]
+	})
+	return d, ok
+}
+
+// The real operations, addressed by node index.
+
+// AddNode runs the real AddNode.
+func (u *VerifUniverse) AddNode(g *EscapeGraph, n int) { g.AddNode(u.Nodes[n]) }
+
+// AddEdge runs the real AddEdge.
+func (u *VerifUniverse) AddEdge(g *EscapeGraph, a, b, flags int) {
+	g.AddEdge(u.Nodes[a], u.Nodes[b], edgeFlags(flags))
+}
+
+// MergeNodeStatus runs the real MergeNodeStatus.
+func (u *VerifUniverse) MergeNodeStatus(g *EscapeGraph, n, s int) {
+	g.MergeNodeStatus(u.Nodes[n], EscapeStatus(s), dataflow.NewBaseRationale("verif"))
+}
+
+// WeakAssign runs the real WeakAssign.
+func (u *VerifUniverse) WeakAssign(g *EscapeGraph, dst, src int) {
+	g.WeakAssign(u.Nodes[dst], u.Nodes[src])
+}
+
+// StoreField runs the real StoreField (nil type hint).
+func (u *VerifUniverse) StoreField(g *EscapeGraph, addr, val int, field string) {
+	g.StoreField(u.Nodes[addr], u.Nodes[val], field, nil)
+}
+
+// LoadField runs the real LoadField with load operation `op` (nil type hint).
+func (u *VerifUniverse) LoadField(g *EscapeGraph, val, addr int, op string, field string) {
+	g.LoadField(u.Nodes[val], u.Nodes[addr], verifLoadOp{op}, field, nil)
+}
+
+// CallUnknown runs the real CallUnknown without return nodes.
+func (u *VerifUniverse) CallUnknown(g *EscapeGraph, args []int) {
+	var ns []*Node
+	for _, a := range args {
+		ns = append(ns, u.Nodes[a])
+	}
+	g.CallUnknown(ns, nil, "verif")
+}
+
+type verifLoadOp struct{ op string }
+
+// VerifWellFormed runs the package's own wellFormedEscapeGraph.
+func VerifWellFormed(g *EscapeGraph) error { return wellFormedEscapeGraph(g) }
+
+// ---------------------------------------------------------------------------------------------
+// Graphs of a real run
+
+// VerifCaptured is the set of graphs of one analysed function.
+type VerifCaptured struct {
+	Function *ssa.Function
+	Group    *NodeGroup
+	Initial  *EscapeGraph
+	Final    *EscapeGraph
+	BlockEnd []*EscapeGraph // by block index; nil if never computed
+}
+
+// VerifCapture returns the graphs of every summarised function, sorted by function name.
+func VerifCapture(prog *ProgramAnalysisState) []VerifCaptured {
+	var r []VerifCaptured
+	for f, s := range prog.summaries {
+		if s == nil || s.summaryType != config.EscapeBehaviorSummarize || s.nodes == nil {
+			continue
+		}
+		c := VerifCaptured{Function: f, Group: s.nodes, Initial: s.initialGraph, Final: s.finalGraph}
+		for _, b := range f.Blocks {
+			c.BlockEnd = append(c.BlockEnd, s.blockEnd[b])
+		}
+		r = append(r, c)
+	}
+	sort.Slice(r, func(i, j int) bool { return r[i].Function.String() < r[j].Function.String() })
+	return r
+}
+
+// ---------------------------------------------------------------------------------------------
+// The package's own monotonicity self-check
+
+// VerifSetMonoCheck switches the per-instruction monotonicity recording on or off and clears the record.
+func VerifSetMonoCheck(on bool) {
+	checkMonotonicityEveryInstruction = on
+	instructionMonoCheckData = map[ssa.Instruction][]cachedGraphMonotonicity{}
+}
+
+// VerifMonoViolation is one instance A ≤ B ∧ ¬(f(A) ≤ f(B)) for one instruction.
+type VerifMonoViolation struct {
+	Instr    string
+	Function string
+	IsCall   bool
+	Reason   string
+	A, B, C, D string // dumps over the universe of the four graphs
+}
+
+// VerifMonoViolations re-examines the recorded (input, output) pairs of every instruction:
+// for i < j (order of recording) in ≤ in' must imply out ≤ out'; for instructions that are not
+// calls (their transfer function does not depend on any summary) also for i > j.
+// Returns the number of comparable pairs examined and the violations.
+func VerifMonoViolations(limit int) (pairs int, instrs int, vs []VerifMonoViolation) {
+	for instr, recs := range instructionMonoCheckData {
+		instrs++
+		_, isCall := instr.(ssa.CallInstruction)
+		for i := range recs {
+			for j := range recs {
+				if i == j || (isCall && i > j) {
+					continue
+				}
+				if less, _ := recs[i].input.LessEqual(recs[j].input); !less {
+					continue
+				}
+				pairs++
+				if lessOut, reason := recs[i].output.LessEqual(recs[j].output); !lessOut && len(vs) < limit {
+					u := VerifUniverseOf(recs[i].input.nodes, recs[i].input, recs[j].input, recs[i].output, recs[j].output)
+					vs = append(vs, VerifMonoViolation{
+						Instr:    fmt.Sprintf("%v @ %v", instr, instr.Parent().Prog.Fset.Position(instr.Pos())),
+						Function: instr.Parent().String(), IsCall: isCall, Reason: reason,
+						A: u.Dump(recs[i].input), B: u.Dump(recs[j].input), C: u.Dump(recs[i].output), D: u.Dump(recs[j].output)})
+				}
+			}
+		}
+	}
+	sort.Slice(vs, func(i, j int) bool { return vs[i].Instr < vs[j].Instr })
+	return
+}
+
+// ---------------------------------------------------------------------------------------------
+// Permuted worklists
+
+// verifRunBlocksPermuted empties the block worklist of ea, taking the next block at a random
+// position instead of the front (the loop of RunForwardIterative otherwise).
+func verifRunBlocksPermuted(ea *functionAnalysisState, rnd *rand.Rand) {
+	if ea.summaryType != config.EscapeBehaviorSummarize || len(ea.function.Blocks) == 0 {
+		return
+	}
+	for len(ea.worklist) > 0 {
+		i := rnd.Intn(len(ea.worklist))
+		block := ea.worklist[i]
+		ea.worklist = append(append([]*ssa.BasicBlock{}, ea.worklist[:i]...), ea.worklist[i+1:]...)
+		if graphTooLarge(ea.prog.state, ea.blockEnd[block]) {
+			// leave the decision to RunForwardIterative
+			ea.worklist = append(ea.worklist, block)
+			return
+		}
+		if ea.ProcessBlock(block) {
+			for _, nextBlock := range block.Succs {
+				ea.addToBlockWorklist(nextBlock)
+			}
+		}
+	}
+}
+
+// VerifEscapeAnalysisPermuted is EscapeAnalysis with both worklists permuted: the function to
+// re-summarise next is taken at a random position of the function worklist (which is initially
+// shuffled), and inside a function the blocks are taken at random positions. Every function on
+// the worklist is eventually processed (fairness), everything else is the real code.
+func VerifEscapeAnalysisPermuted(state *dataflow.AnalyzerState, seed int64) (*ProgramAnalysisState, error) {
+	rnd := rand.New(rand.NewSource(seed))
+	prog := &ProgramAnalysisState{
+		summaries:   make(map[*ssa.Function]*functionAnalysisState),
+		globalNodes: newGlobalNodeGroup(),
+		logger:      state.Logger,
+		state:       state,
+	}
+	nodes := []*callgraph.Node{}
+	nodesToAnalyze := map[*ssa.Function]bool{}
+	// deterministic creation order of the per-function states
+	var funcs []*ssa.Function
+	for f := range state.PointerAnalysis.CallGraph.Nodes {
+		funcs = append(funcs, f)
+	}
+	sort.Slice(funcs, func(i, j int) bool { return funcs[i].String() < funcs[j].String() })
+	for _, f := range funcs {
+		st := prog.getFunctionAnalysisSummary(f)
+		if st.summaryType == config.EscapeBehaviorSummarize {
+			nodes = append(nodes, state.PointerAnalysis.CallGraph.Nodes[f])
+			nodesToAnalyze[f] = true
+		}
+	}
+	prog.builtWorklist = true
+	succ := func(n *callgraph.Node) []*callgraph.Node {
+		succs := []*callgraph.Node{}
+		for _, e := range n.Out {
+			succs = append(succs, e.Callee)
+		}
+		return succs
+	}
+	worklist := make([]*functionAnalysisState, 0)
+	for _, scc := range graphutil.StronglyConnectedComponents(nodes, succ) {
+		for _, n := range scc {
+			if summary, ok := prog.summaries[n.Func]; ok && nodesToAnalyze[n.Func] {
+				worklist = append(worklist, summary)
+			}
+		}
+	}
+	rnd.Shuffle(len(worklist), func(i, j int) { worklist[i], worklist[j] = worklist[j], worklist[i] })
+	steps := 0
+	for len(worklist) > 0 {
+		i := rnd.Intn(len(worklist))
+		summary := worklist[i]
+		worklist = append(append([]*functionAnalysisState{}, worklist[:i]...), worklist[i+1:]...)
+		steps++
+		if steps > 200000 {
+			return prog, fmt.Errorf("permuted worklist did not empty after %d steps", steps)
+		}
+		verifRunBlocksPermuted(summary, rnd)
+		changed := summary.Resummarize()
+		if !changed {
+			continue
+		}
+		// deterministic iteration over the uses
+		type use struct {
+			loc  summaryUse
+			used *EscapeGraph
+		}
+		var uses []use
+		for location, graphUsed := range summary.summaryUses {
+			uses = append(uses, use{location, graphUsed})
+		}
+		sort.Slice(uses, func(i, j int) bool {
+			a, b := uses[i].loc, uses[j].loc
+			if a.function.function.String() != b.function.function.String() {
+				return a.function.function.String() < b.function.function.String()
+			}
+			return a.instruction.Pos() < b.instruction.Pos()
+		})
+		for _, us := range uses {
+			if !summary.finalGraph.Matches(us.used) {
+				us.loc.function.addToBlockWorklist(us.loc.instruction.Block())
+				found := false
+				for _, entry := range worklist {
+					if entry == us.loc.function {
+						found = true
+						break
+					}
+				}
+				if !found {
+					worklist = append(worklist, us.loc.function)
+				}
+			}
+		}
+	}
+	return prog, nil
+}
+
+// VerifSummaryFingerprints gives, for every summarised function, a canonical form of its final
+// summary that does not depend on node identities or numbers: the sorted multiset of node colours
+// after colour refinement (initial colour: kind, status, root position among formals/free
+// variables/returns; refinement: multiset of (flags, direction, neighbour colour)) together with
+// the sorted multiset of coloured edges. Isomorphic summaries have equal fingerprints.
+func VerifSummaryFingerprints(prog *ProgramAnalysisState) map[string]string {
+	r := map[string]string{}
+	for f, s := range prog.summaries {
+		if s == nil || s.summaryType != config.EscapeBehaviorSummarize || s.finalGraph == nil {
+			continue
+		}
+		if s.overflow {
+			r[f.String()] = "overflow"
+			continue
+		}
+		r[f.String()] = VerifFingerprint(s.finalGraph)
+	}
+	return r
+}
+
+// VerifFingerprint computes the canonical form of one graph (see VerifSummaryFingerprints).
+func VerifFingerprint(g *EscapeGraph) string {
+	colour := map[*Node]string{}
+	rootPos := map[*Node][]string{}
+	for i, n := range g.nodes.formals {
+		if n != nil {
+			rootPos[n] = append(rootPos[n], fmt.Sprintf("formal%d", i))
+		}
+	}
+	for i, n := range g.nodes.freevars {
+		if n != nil {
+			rootPos[n] = append(rootPos[n], fmt.Sprintf("free%d", i))
+		}
+	}
+	for i, n := range g.nodes.returnNodes {
+		rootPos[n] = append(rootPos[n], fmt.Sprintf("ret%d", i))
+	}
+	all := map[*Node]bool{}
+	for n := range g.status {
+		all[n] = true
+	}
+	for n, out := range g.edges {
+		all[n] = true
+		for m := range out {
+			all[m] = true
+		}
+	}
+	for n := range all {
+		st, has := g.status[n]
+		_, hasOut := g.edges[n]
+		sort.Strings(rootPos[n])
+		base := n.debugInfo
+		if n.kind == KindLoad || n.kind == KindVar {
+			base = "" // names of temporaries and load nodes may depend on creation order
+		}
+		colour[n] = fmt.Sprintf("k%d s%d/%v o%v r%v %s", n.kind, st, has, hasOut, rootPos[n], base)
+	}
+	type nb struct {
+		n   *Node
+		lbl string
+	}
+	in := map[*Node][]nb{}
+	for n, out := range g.edges {
+		for m, f := range out {
+			in[m] = append(in[m], nb{n, fmt.Sprintf("<%d", f)})
+		}
+	}
+	h := func(s string) string { return fmt.Sprintf("%x", sha1.Sum([]byte(s)))[:16] }
+	for round := 0; round < len(all)+1 && round < 64; round++ {
+		next := map[*Node]string{}
+		for n := range all {
+			var parts []string
+			for m, f := range g.edges[n] {
+				parts = append(parts, fmt.Sprintf(">%d:%s", f, colour[m]))
+			}
+			for _, x := range in[n] {
+				parts = append(parts, x.lbl+":"+colour[x.n])
+			}
+			sort.Strings(parts)
+			next[n] = h(colour[n] + "|" + strings.Join(parts, ","))
+		}
+		colour = next
+	}
+	var ns, es []string
+	for n := range all {
+		ns = append(ns, colour[n])
+	}
+	for n, out := range g.edges {
+		for m, f := range out {
+			es = append(es, fmt.Sprintf("%s>%s:%d", colour[n], colour[m], f))
+		}
+	}
+	sort.Strings(ns)
+	sort.Strings(es)
+	return fmt.Sprintf("n=%d e=%d %s", len(ns), len(es), h(strings.Join(ns, ",")+"#"+strings.Join(es, ",")))
+}
+
+// VerifReadable renders a graph with node numbers and debug names, for replay files.
+func VerifReadable(g *EscapeGraph) string {
+	var lines []string
+	for n, s := range g.status {
+		lines = append(lines, fmt.Sprintf("node %v kind=%d status=%d", n, n.kind, s))
+	}
+	for n, out := range g.edges {
+		for m, f := range out {
+			lines = append(lines, fmt.Sprintf("edge %v -> %v flags=%d", n, m, f))
+		}
+	}
+	sort.Strings(lines)
+	return strings.Join(lines, "\n")
+}
